@@ -496,6 +496,8 @@ def replay(case):
     for ev in hist:
         s = H.apply(s, ev, fsdirs).state
     ps = view_problems(s, fsdirs) + foreign_delete_problems(s, fsdirs)
+    if len(hist) <= REUNLOCK_DEPTH:
+        ps += reunlock_problems(s, fsdirs)
     return {'violations': [p['what'] for p in ps], 'problems': ps}
 
 
